@@ -96,6 +96,12 @@ func (t *Input) CoerceIn(v interface{}) (interface{}, error) {
 	case nil:
 		// nil is okay at this point
 	case map[string]interface{}:
+		if tv == nil {
+			// A nil map can be read like an empty one but the defaults can
+			// not be filled in.
+			tv = map[string]interface{}{}
+			v = tv
+		}
 		for k := range tv {
 			if t.fields.get(k) == nil {
 				return nil, fmt.Errorf("%s is not a field in %s", k, t.Name())
